@@ -4,6 +4,7 @@ use crate::slg::{ResolventOps, SlgContext, SlgContextOps};
 use crate::stack::{Stack, StackIndex};
 use crate::strand::{CanonicalStrand, SelectedSubgoal, Strand};
 use crate::table::{AnswerIndex, Table};
+use crate::tables::Tables;
 use crate::{
     Answer, AnswerMode, CompleteAnswer, ExClause, FlounderedSubgoal, Literal, Minimums, TableIndex,
     TimeStamp,
@@ -461,6 +462,14 @@ pub(crate) struct SolveState<'forest, I: Interner> {
 
 impl<'forest, I: Interner> Drop for SolveState<'forest, I> {
     fn drop(&mut self) {
+        if std::thread::panicking() {
+            // We are unwinding out of the middle of a step (e.g. a database
+            // callback panicked). The strand being pursued is detached from
+            // its table and tables may be half-updated, so no cached state can
+            // be trusted: start over with an empty forest.
+            self.forest.tables = Tables::new();
+            return;
+        }
         if !self.stack.is_empty() {
             if let Some(active_strand) = self.stack.top().active_strand.take() {
                 let table = self.stack.top().table;
